@@ -40,7 +40,7 @@ def gen_call(rng):
 
 
 def run(ctx, res):
-    res.rule = ('sequences of 2-6 library calls in one process -- different mappings, file and in-memory sources (DataFrame, list, dict, JSON string), different na_values / safe_percent_encoding / '
+    res.rule = ('sequences of 2-6 library calls in one process (materialize_set, and for a third of the calls materialize / materialize_oxigraph) -- different mappings, RDF and YARRRML files with and without %YAML directives, calls that fail, file and in-memory sources (DataFrame, list, dict, JSON string), different na_values / safe_percent_encoding / '
                 'only_printable_chars / output_format / partitioning, the same call repeated, the same Python objects passed again -- against each call made alone in a fresh process; '
                 'plus fingerprints of the caller\'s objects and hashes of every mapping / data file before and after each call; distinct = distinct sequence; non-trivial = sequence whose calls differ in an option or source')
     known = set(ctx.known)
@@ -91,12 +91,47 @@ def run(ctx, res):
     cif_without = bcase(MK_ + 'controls_if_cast', [[GREL_ + 'bool_b', 'ref', 'c2'], [GREL_ + 'any_true', 'const', 'yes']])
     cif_with = bcase(MK_ + 'controls_if_cast', [[GREL_ + 'bool_b', 'ref', 'c2'], [GREL_ + 'any_true', 'const', 'yes'], [GREL_ + 'any_false', 'const', 'no']])
     seqs.append([cif_without, cif_with, copy.deepcopy(cif_without)])
+    # the three library entry points in one process: a third of the calls of the generated sequences go through materialize() or materialize_oxigraph()
+    for calls in seqs:
+        for c in calls:
+            if ctx.rng.random() < 0.3 and not any(s_.get('kind') in mapcase.MEMORY_KINDS for s_ in c['sources']):
+                c['cfg']['entry'] = ctx.rng.choice(['rdflib', 'oxigraph'])
+    # directed: a call through materialize() that fails while loading its result, then mappings whose constants are typed literals in
+    # non-canonical form (what the mapping parser reads depends on process-wide rdflib settings)
+    PFX = '@prefix rml: <http://w3id.org/rml/> . @prefix ex: <http://ex.org/> . @prefix xsd: <http://www.w3.org/2001/XMLSchema#> .\n'
+    def raw(name, files, mappings, entry='set', fmt='N-TRIPLES'):
+        return {'raw': {'files': files, 'config': '[CONFIGURATION]\nnumber_of_processes=1\nlogging_level=ERROR\noutput_format=%s\n[DS]\nmappings=%s\n' % (fmt, mappings), 'entry': entry},
+                'cfg': {'raw': name, 'entry': entry}, 'sources': []}
+    data = 'id,c1\r\n1,a b\r\n2,c\r\n'
+    src = 'rml:logicalSource [ rml:source "d.csv" ; rml:referenceFormulation rml:CSV ]'
+    bad = raw('unloadable-result', {'d.csv': data, 'm.ttl': PFX + 'ex:T a rml:TriplesMap ; %s ; rml:subjectMap [ rml:template "http://ex.org/r/{id}" ] ; '
+              'rml:predicateObjectMap [ rml:predicate ex:p ; rml:objectMap [ rml:reference "c1" ; rml:termType rml:IRI ] ] .\n' % src}, 'm.ttl', entry='rdflib', fmt='N-QUADS')
+    typed = raw('typed-constants', {'d.csv': data, 'm.ttl': PFX + 'ex:T a rml:TriplesMap ; %s ; rml:subjectMap [ rml:template "http://ex.org/r/{id}" ] ; '
+                'rml:predicateObjectMap [ rml:predicate ex:n ; rml:object "007"^^xsd:integer ] ; rml:predicateObjectMap [ rml:predicate ex:b ; rml:object "1"^^xsd:boolean ] ; '
+                'rml:predicateObjectMap [ rml:predicate ex:d ; rml:object "1.50"^^xsd:decimal ] .\n' % src}, 'm.ttl')
+    for entry in ('set', 'rdflib', 'oxigraph'):
+        t2 = copy.deepcopy(typed); t2['raw']['entry'] = entry; t2['cfg']['entry'] = entry
+        seqs.append([copy.deepcopy(typed), copy.deepcopy(bad), t2, copy.deepcopy(typed)])
+    # directed: YARRRML files with and without a %YAML directive, plain scalars that YAML 1.1 and 1.2 read differently (no / on / y / 012 / 12:30:00)
+    def yar(name, head, lang, val):
+        body = ('prefixes:\n  ex: http://ex.org/\nmappings:\n  tm:\n    sources:\n      - [d.csv~csv]\n    s: ex:r/$(id)\n    po:\n      - p: ex:p\n        o:\n          value: $(c1)\n          language: %s\n'
+                '      - p: ex:q\n        o:\n          value: %s\n' % (lang, val))
+        return raw(name, {'d.csv': data, 'm.yml': head + body}, 'm.yml')
+    y11 = yar('yaml-1.1', '%YAML 1.1\n---\n', 'en', 'plain')
+    for lang, val in (('no', 'on'), ('en', 'y'), ('no', '012'), ('fr', '12:30:00')):
+        y = yar('yaml-plain:%s:%s' % (lang, val), '', lang, val)
+        seqs.append([copy.deepcopy(y), copy.deepcopy(y11), copy.deepcopy(y)])
     jobs_seq, jobs_single, meta, dirs = [], [], [], []
     for si, calls in enumerate(seqs):
         items = []
         for ci, c in enumerate(calls):
             d = os.path.join(wd, 'q%d_%d' % (si, ci)); os.makedirs(d); dirs.append(d)
-            it = {'config': mapcase.materialise_files(c, d), 'cwd': d, 'py': mapcase.python_sources(c)}
+            if 'raw' in c:
+                for fn_, txt in c['raw']['files'].items():
+                    open(os.path.join(d, fn_), 'w', encoding='utf-8', newline='').write(txt)
+                it = {'config': c['raw']['config'], 'cwd': d, 'py': {}, 'entry': c['raw']['entry']}
+            else:
+                it = {'config': mapcase.materialise_files(c, d), 'cwd': d, 'py': mapcase.python_sources(c), 'entry': c['cfg'].get('entry', 'set')}
             items.append(it)
             jobs_single.append({'fn': 'call_sequence', 'args': {'items': [it]}})
             meta.append((si, ci))
